@@ -81,7 +81,13 @@ ConfigOK(x, y) ==
 UnitRunOK(r) ==
     /\ r.raised = ""
     /\ Len(r.tasks) = r.ntasks
-    /\ \A i \in 1..Len(r.tasks) : r.tasks[i].sec = r.tasks[i].expect
+    /\ \A i \in 1..Len(r.tasks) :
+         LET tk == r.tasks[i]
+             (* input from another machine arrives volume / (4 units/s) seconds after the producer finished *)
+             arrive == {tk.preds[j].aft + tk.preds[j].vol \div 4 : j \in {j \in 1..Len(tk.preds) : ~tk.preds[j].same}}
+             latest == IF arrive = {} THEN 0 ELSE CHOOSE a \in arrive : \A b \in arrive : b <= a
+         IN /\ tk.sec = tk.expect
+            /\ tk.ast = MaxI(tk.alloc, latest)
     /\ r.obs_seconds = 240
     /\ r.vol = 720
 
